@@ -3,6 +3,7 @@
 cd "$(dirname "$0")/.."
 R=$1; shift
 for P in "$@"; do for M in A B; do
+  [ -f /tmp/mut$R/out/$P/$M/patch.diff ] || continue
   d=seeded/$P-R$R$M; mkdir -p $d
   cp /tmp/mut$R/out/$P/$M/patch.diff /tmp/mut$R/out/$P/$M/demo_test.go /tmp/mut$R/out/$P/$M/meta.json $d/
 done; done
